@@ -1242,6 +1242,14 @@ impl<'a> Runner<'a> {
                             }
                         }
                     };
+                    if let (Resp::Error(e), Some(b)) = (&resp, &before) {
+                        // a request the server answered with an error (no fault was injected)
+                        let after = self.dump();
+                        self.cov.hit(format!("frame:{}:error", req.name()));
+                        if *b != after {
+                            self.v("C18", format!("{} for client #{c} on {} was answered with an error ({e}) but stored state changed: {}", req.name(), self.subj.kind.name(), b.diff(&after)));
+                        }
+                    }
                     if self.non_mutating(req, &resp) || declined {
                         let after = self.dump();
                         self.cov.hit(format!("frame:{}:{}", req.name(), if declined { "declined" } else { resp.outcome() }));
@@ -1286,6 +1294,19 @@ impl<'a> Runner<'a> {
                         _ => None,
                     };
                     self.mon_snapget(c, prev_snap.clone(), uploaded.clone(), pred);
+                }
+                // ---- C12: the age of a snapshot starts when it is accepted
+                if self.mon.counter {
+                    if let (Req::AddSnapshot { vid, .. }, Resp::SnapOk) = (req, &resp) {
+                        if snap_predicate(&pre, *vid) == SnapPred::Accept {
+                            if let Some(rec) = self.client_record(c).and_then(|r| r.snapshot) {
+                                let skew = chrono::Utc::now().timestamp() - rec.timestamp.timestamp();
+                                if rec.version_id == *vid && !(-3..=30).contains(&skew) {
+                                    self.v("C12", format!("an AddSnapshot for client #{c} accepted just now on {} is stored with a time stamp {} s away from the present ({}): its age does not start at its acceptance, so urgency by age will be wrong by that much", self.subj.kind.name(), -skew, rec.timestamp));
+                                }
+                            }
+                        }
+                    }
                 }
                 // ---- C12 counters + urgency of real histories
                 if self.mon.counter {
